@@ -9,13 +9,24 @@
      qupulse/program/waveforms.py _to_time_type (shortest decimal of a float; the decimal is supplied exactly)
    A number is an int, a TimeType or a float; floats carry their exact binary value and the value of their shortest
    decimal representation.  Any arithmetic in which a float takes part is `Inexact` (binary rounding is not modelled;
-   such inputs are outside the property and are not judged). *)
+   such inputs are outside the property and are not judged).
+
+   Two readings of a number are used by the code and kept apart here:
+     time_of  the value it has once converted to a TimeType (`_to_time_type` = TimeType.from_float default = the
+              shortest decimal of a float): waveform durations;
+     raw_of   the value Python comparisons see (a float's binary value; gmpy2 compares mpq with float exactly):
+              `duration > 0`, table `t > 0` / `max` / `t < duration` / `_validate_input`, `round`/`abs(x - int_x) > 1e-6`
+              in checked_int_cast, parameter constraints, the first argument of the declared-duration isclose.
+   Every function that compares takes a configuration `cfg`: the reading used by comparisons plus four ghost switches
+   that turn the input classes of the known findings into explicit `EFinding` errors.  `real` (raw reading, no switch)
+   is the code; `lax` (decimal reading) and `ideal` (decimal reading, all switches) are used by guards and proofs. *)
 From Coq Require Import ZArith QArith Qround Qabs Bool List.
 Import ListNotations.
 Open Scope Z_scope.
 
 Definition ident := N.
-Inductive errkind := EMissing | ENotInt | EZeroStep | EMismatch | ETable | EOther.
+Inductive finding := FNegCount | FNegDuration | FNearInteger | FParallel.
+Inductive errkind := EMissing | ENotInt | EZeroStep | EMismatch | ETable | EConstraint | EOther | EFinding (k : finding).
 Inductive res (A : Type) : Type := Ok (a : A) | Inexact | Err (k : errkind).
 Arguments Ok {A} a. Arguments Inexact {A}. Arguments Err {A} k.
 
@@ -31,15 +42,27 @@ Fixpoint rall {A} (l : list (res A)) : res (list A) :=
 
 (* ------------------------------------------------------------------------------------------------------------ *)
 (* numbers *)
-Inductive value := VInt (z : Z) | VTime (q : Q) | VFloat (exact dec : Q).
+(* VBad: a number of a type `evaluate_numeric` rejects (fractions.Fraction, gmpy2.mpq): NonNumericEvaluation *)
+Inductive value := VInt (z : Z) | VTime (q : Q) | VFloat (exact dec : Q) | VBad (q : Q).
 
 (* the value a number has as a time (TimeType as is, int exactly, float -> its shortest decimal) *)
 Definition time_of (v : value) : Q :=
-  match v with VInt z => inject_Z z | VTime q => q | VFloat _ d => d end.
-(* the value used by comparisons (==, <, >, max, round): for a float the implementation compares the binary value; the
-   model compares the decimal value, which has the same sign and order (shortest-decimal conversion is monotone), so
-   outcomes differ only exactly at the 1e-6 / 1e-9 tolerance boundaries, which are never generated *)
-Definition cmpq (v : value) : Q := time_of v.
+  match v with VInt z => inject_Z z | VTime q => q | VFloat _ d => d | VBad q => q end.
+(* the value Python comparisons see (==, <, >, max, round): for a float its binary value *)
+Definition raw_of (v : value) : Q :=
+  match v with VInt z => inject_Z z | VTime q => q | VFloat x _ => x | VBad q => q end.
+
+Record cfg := { cv : value -> Q; s_negcount : bool; s_negdur : bool; s_nearint : bool; s_parallel : bool }.
+Definition real : cfg := {| cv := raw_of; s_negcount := false; s_negdur := false; s_nearint := false; s_parallel := false |}.
+Definition lax : cfg := {| cv := time_of; s_negcount := false; s_negdur := false; s_nearint := false; s_parallel := false |}.
+Definition ideal : cfg := {| cv := time_of; s_negcount := true; s_negdur := true; s_nearint := true; s_parallel := true |}.
+(* the code with exactly one finding class made explicit *)
+Definition only (k : finding) : cfg :=
+  {| cv := raw_of;
+     s_negcount := match k with FNegCount => true | _ => false end;
+     s_negdur := match k with FNegDuration => true | _ => false end;
+     s_nearint := match k with FNearInteger => true | _ => false end;
+     s_parallel := match k with FParallel => true | _ => false end |}.
 
 Definition Qleb (a b : Q) : bool := Qle_bool a b.
 Definition Qltb (a b : Q) : bool := negb (Qle_bool b a).
@@ -66,8 +89,11 @@ Definition vdivk (a : value) (k : positive) : res value :=
 Definition vmax (a b : value) : res value :=
   match a, b with
   | VFloat _ _, _ | _, VFloat _ _ => Inexact
-  | _, _ => Ok (if Qleb (cmpq a) (cmpq b) then b else a)
+  | VBad _, _ | _, VBad _ => Inexact
+  | _, _ => Ok (if Qleb (time_of a) (time_of b) then b else a)
   end.
+(* builtin max(a, b): b only if b > a, on the raw values *)
+Definition pymax (f : value -> Q) (a b : value) : value := if Qltb (f a) (f b) then b else a.
 
 (* Python round(): nearest, ties to even *)
 Definition Qround_half_even (a : Q) : Z :=
@@ -80,16 +106,20 @@ Definition Qround_half_even (a : Q) : Z :=
   end.
 (* float(1e-6), exactly *)
 Definition eps_cast : Q := 4722366482869645 # 4722366482869645213696.
-(* checked_int_cast *)
-Definition int_of (v : value) : res Z :=
+(* checked_int_cast: round(x), abs(x - int_x) > 1e-6 on the raw value (x - round(x) is exact in binary floating
+   point); ghost switch: a value that is not an integer but is rounded to one *)
+Definition int_of (c : cfg) (v : value) : res Z :=
   match v with
   | VInt z => Ok z
-  | _ => let x := cmpq v in
+  | _ => let x := cv c v in
          let r := Qround_half_even x in
-         if Qltb eps_cast (Qabs (x - inject_Z r)) then Err ENotInt else Ok r
+         if Qltb eps_cast (Qabs (x - inject_Z r)) then Err ENotInt
+         else if s_nearint c && negb (Qeqb x (inject_Z r)) then Err (EFinding FNearInteger) else Ok r
   end.
 
-(* math.isclose(a, b) with the default rel_tol = 1e-9, abs_tol = 0 *)
+(* math.isclose(a, b) with the default rel_tol = 1e-9, abs_tol = 0.  The code calls it on float(a), float(b) (a TimeType
+   is rounded to the nearest double first) and evaluates it in double arithmetic; the model evaluates it on the exact
+   rationals: the two can differ only within ~1e-16 relative of the 1e-9 boundary, which is never generated *)
 Definition isclose (a b : Q) : bool :=
   Qleb (Qabs (a - b)) ((1 # 1000000000) * (if Qleb (Qabs a) (Qabs b) then Qabs b else Qabs a)).
 
@@ -112,7 +142,7 @@ Fixpoint lookup {A} (e : list (ident * A)) (x : ident) : option A :=
 Fixpoint eval (e : env) (x : expr) : res value :=
   match x with
   | ELit v => Ok v
-  | EVar y => match lookup e y with Some v => Ok v | None => Err EMissing end
+  | EVar y => match lookup e y with Some (VBad _) => Err EOther | Some v => Ok v | None => Err EMissing end
   | EAdd a b => do u <- eval e a; do w <- eval e b; vadd u w
   | ESub a b => do u <- eval e a; do w <- eval e b; vsub u w
   | EMul a b => do u <- eval e a; do w <- eval e b; vmul u w
@@ -133,7 +163,9 @@ Inductive pt :=
 | PMulti (declared : option expr) (subs : list pt)  (* AtomicMultiChannelPT *)
 | PArith (lhs rhs : pt)                             (* ArithmeticAtomicPT *)
 | PWrap (body : pt)                                 (* ArithmeticPT with a scalar operand *)
-| PRev (body : pt).                                 (* TimeReversalPT *)
+| PRev (body : pt)                                  (* TimeReversalPT *)
+| PConstr (cs : list (expr * expr)) (body : pt)     (* parameter_constraints=['lhs <= rhs', ...] on `body` *)
+| PSingle (body : pt).                              (* `body` is in create_program's to_single_waveform set *)
 
 Definition map_env (e : env) (m : list (ident * expr)) : res env :=
   do vs <- rall (map (fun xe => do v <- eval e (snd xe); Ok (fst xe, v)) m); Ok (vs ++ e).
@@ -180,6 +212,8 @@ Fixpoint sym (p : pt) (e : env) : res value :=
   | PArith l r => do u <- sym l e; do w <- sym r e; vmax u w       (* Max(lhs.duration, rhs.duration) *)
   | PWrap b => sym b e
   | PRev b => sym b e
+  | PConstr _ b => sym b e
+  | PSingle b => sym b e
   end.
 
 (* every float parameter replaced by the time value of its shortest decimal: "the parameters as given" *)
@@ -222,51 +256,88 @@ Fixpoint sortedq (l : list Q) : bool :=
 
 Definition lastv (l : list value) : value := last l (VInt 0).
 
-Definition table_wf (rank : Z) (e : env) (chans : list (list expr)) : res (option comps) :=
+Fixpoint pymax_list (f : value -> Q) (a : value) (l : list value) : value :=
+  match l with [] => a | b :: t => pymax_list f (pymax f a b) t end.
+
+(* TablePulseTemplate.get_entries_instantiated + TableWaveform validation; every comparison on the reading `f` *)
+Definition table_wf (f : value -> Q) (rank : Z) (e : env) (chans : list (list expr)) : res (option comps) :=
   do vals <- rall (map (fun ts => rall (map (eval e) ts)) chans);
   (* Add (0, v) entry if wf starts at finite time *)
-  let ins := map (fun ts => match ts with v :: _ => if Qltb 0 (cmpq v) then VInt 0 :: ts else ts | [] => ts end) vals in
+  let ins := map (fun ts => match ts with v :: _ => if Qltb 0 (f v) then VInt 0 :: ts else ts | [] => ts end) vals in
   match map lastv ins with
   | [] => Err EOther
   | a :: t =>
-      do dur <- vmax_list a t;
-      if Qeqb (cmpq dur) 0 then Ok None else
-      let padded := map (fun ts => if Qltb (cmpq (lastv ts)) (cmpq dur) then ts ++ [dur] else ts) ins in
+      let dur := pymax_list f a t in                      (* max(instantiated[-1].t for ...) *)
+      if Qeqb (f dur) 0 then Ok None else
+      let padded := map (fun ts => if Qltb (f (lastv ts)) (f dur) then ts ++ [dur] else ts) ins in
       (* TableWaveform._validate_input: first time 0, times not decreasing *)
-      if forallb (fun ts => match ts with v :: _ => Qeqb (cmpq v) 0 && sortedq (map cmpq ts) | [] => false end) padded
+      if forallb (fun ts => match ts with v :: _ => Qeqb (f v) 0 && sortedq (map f ts) | [] => false end) padded
       then Ok (Some [(rank, time_of dur)]) else Err ETable
   end.
 
 Fixpoint somes {A} (l : list (option A)) : list A :=
   match l with [] => [] | Some a :: t => a :: somes t | None :: t => somes t end.
+Definition is_none {A} (o : option A) : bool := match o with None => true | Some _ => false end.
 
-Fixpoint wf_of (p : pt) (e : env) : res (option comps) :=
+(* parameter constraints `lhs <= rhs`: the lambdified relation compares the raw values *)
+Definition check_constr (c : cfg) (e : env) (cs : list (expr * expr)) : res unit :=
+  do _ <- rall (map (fun lr => do l <- eval e (fst lr); do r <- eval e (snd lr);
+                               if Qleb (cv c l) (cv c r) then Ok tt else Err EConstraint) cs);
+  Ok tt.
+
+(* ghost check of the switch s_parallel: all parts put in parallel last exactly equally long; a part without a
+   waveform counts as 0 *)
+Definition par_strict (ws : list (option comps)) : bool :=
+  let cs := concat (somes ws) in
+  forallb (fun x => Qeqb (snd x) (cdur cs)) cs && (if existsb is_none ws then forallb (fun x => Qeqb (snd x) 0) cs else true).
+
+Fixpoint wf_of (c : cfg) (p : pt) (e : env) : res (option comps) :=
   match p with
-  | PAtom KConst r d => do v <- eval e d; if Qltb 0 (cmpq v) then Ok (Some [(r, time_of v)]) else Ok None
-  | PAtom KFunc r d => do v <- eval e d; Ok (Some [(r, time_of v)])
-  | PTable r chans => table_wf r e chans
-  | PMap m b => do e' <- map_env e m; wf_of b e'
-  | PMulti decl subs =>
-      do ws <- rall (map (fun c => wf_of c e) subs);
-      match somes ws with
-      | [] => Ok None
-      | w1 :: rest =>
-          do w <- match rest with [] => Ok w1 | _ => parallel (concat (w1 :: rest)) end;
-          match decl with
-          | None => Ok (Some w)
-          | Some d => do dv <- eval e d;
-                      if isclose (cmpq dv) (cdur w) then Ok (Some w) else Err EMismatch
-          end
+  | PAtom k r d =>
+      do v <- eval e d;
+      if s_negdur c && Qltb (cv c v) 0 then Err (EFinding FNegDuration) else
+      match k with
+      | KConst => if Qltb 0 (cv c v) then Ok (Some [(r, time_of v)]) else Ok None     (* `if duration > 0` *)
+      | KFunc => Ok (Some [(r, time_of v)])
       end
+  | PTable r chans => table_wf (cv c) r e chans
+  | PMap m b => do e' <- map_env e m; wf_of c b e'
+  | PMulti decl subs =>
+      do ws <- rall (map (fun s => wf_of c s e) subs);
+      do res <-
+        match somes ws with
+        | [] => Ok None
+        | w1 :: rest =>
+            do w <- match rest with [] => Ok w1 | _ => parallel (concat (w1 :: rest)) end;
+            match decl with
+            | None => Ok (Some w)
+            | Some d => do dv <- eval e d;
+                        if isclose (cv c dv) (cdur w) then Ok (Some w) else Err EMismatch
+            end
+        end;
+      if s_parallel c
+         && negb (par_strict ws
+                  && match decl with
+                     | None => true
+                     | Some d => match eval e d with
+                                 | Ok dv => Qeqb (cv c dv) (match res with Some w => cdur w | None => 0 end)
+                                 | _ => true
+                                 end
+                     end)
+      then Err (EFinding FParallel) else Ok res
   | PArith l r =>
-      do wl <- wf_of l e; do wr <- wf_of r e;
+      do wl <- wf_of c l e; do wr <- wf_of c r e;
       match wr, wl with
       | None, _ => Ok wl
       | Some cr, None => Ok (Some [(crank cr, cdur cr)])
-      | Some cr, Some cl => if isclose (cdur cl) (cdur cr) then Ok (Some [(Z.min (crank cl) (crank cr), cdur cl)])
+      | Some cr, Some cl => if isclose (cdur cl) (cdur cr)
+                            then if s_parallel c && negb (Qeqb (cdur cl) (cdur cr)) then Err (EFinding FParallel)
+                                 else Ok (Some [(Z.min (crank cl) (crank cr), cdur cl)])
                             else Err EMismatch
       end
-  | PWrap b => do w <- wf_of b e; Ok (match w with Some c => Some [(crank c, cdur c)] | None => None end)
+  | PWrap b => do w <- wf_of c b e; Ok (match w with Some x => Some [(crank x, cdur x)] | None => None end)
+  | PConstr cs b => do _ <- check_constr c e cs; wf_of c b e
+  | PSingle b => wf_of c b e                 (* to_single_waveform has no effect inside build_waveform *)
   | PSeq _ | PRep _ _ | PFor _ _ _ _ _ | PRev _ => Err EOther      (* not atomic *)
   end.
 
@@ -317,25 +388,34 @@ Definition wrap_node (n : Z) (kids : list loop) : list loop :=
   match kids with [] => [] | _ => [Node n kids] end.
 
 (* _internal_create_program: the children this template appends to the current top loop *)
-Fixpoint cp (p : pt) (e : env) : res (list loop) :=
+Fixpoint cp (c : cfg) (p : pt) (e : env) : res (list loop) :=
   match p with
-  | PSeq subs => do ks <- rall (map (fun c => cp c e) subs); Ok (concat ks)
-  | PRep c b =>
-      do vc <- eval e c; do n <- int_of vc;
-      if n <=? 0 then Ok [] else do kids <- cp b e; Ok (wrap_node n kids)
+  | PSeq subs => do ks <- rall (map (fun s => cp c s e) subs); Ok (concat ks)
+  | PRep n b =>
+      do vc <- eval e n; do n <- int_of c vc;
+      if s_negcount c && (n <? 0) then Err (EFinding FNegCount) else
+      if n <=? 0 then Ok [] else do kids <- cp c b e; Ok (wrap_node n kids)
   | PFor i a b s body =>
-      do va <- eval e a; do ia <- int_of va;
-      do vb <- eval e b; do ib <- int_of vb;
-      do vs <- eval e s; do is <- int_of vs;
+      do va <- eval e a; do ia <- int_of c va;
+      do vb <- eval e b; do ib <- int_of c vb;
+      do vs <- eval e s; do is <- int_of c vs;
       if is =? 0 then Err EZeroStep else
-      do ks <- rall (map (fun v => cp body ((i, VInt v) :: e)) (zrange ia ib is)); Ok (concat ks)
-  | PMap m b => do e' <- map_env e m; cp b e'
-  | PWrap b => cp b e
-  | PRev b => do kids <- cp b e; Ok (wrap_node 1 kids)
+      do ks <- rall (map (fun v => cp c body ((i, VInt v) :: e)) (zrange ia ib is)); Ok (concat ks)
+  | PMap m b => do e' <- map_env e m; cp c b e'
+  | PWrap b => cp c b e
+  | PRev b => do kids <- cp c b e; Ok (wrap_node 1 kids)
+  | PConstr cs b => do _ <- check_constr c e cs; cp c b e
+  | PSingle b =>
+      (* new_subprogram: the inner program, if any, is rendered as one waveform and played as one leaf *)
+      do kids <- cp c b e;
+      match kids with
+      | [] => Ok []
+      | _ => match wf_duration (Node 1 kids) with Some q => Ok [Leaf 1 q] | None => Err EOther end
+      end
   | PAtom _ _ _ | PTable _ _ | PMulti _ _ | PArith _ _ =>
-      do w <- wf_of p e; Ok (match w with Some c => [Leaf 1 (cdur c)] | None => [] end)
+      do w <- wf_of c p e; Ok (match w with Some x => [Leaf 1 (cdur x)] | None => [] end)
   end.
 
 (* create_program: Some root / None *)
-Definition create_program (p : pt) (e : env) : res (option loop) :=
-  do kids <- cp p e; Ok (match kids with [] => None | _ => Some (Node 1 kids) end).
+Definition create_program (c : cfg) (p : pt) (e : env) : res (option loop) :=
+  do kids <- cp c p e; Ok (match kids with [] => None | _ => Some (Node 1 kids) end).
